@@ -113,6 +113,7 @@ func TestC11SeqGroup(t *testing.T) {
 		snaps := m.takeSnapshots()
 		t.Run(gg.name, func(t *testing.T) {
 			vlib.Check(t, vlib.N(600, 2400)/gg.div, func(t *rapid.T) { m.run(t, snaps) })
+			m.decodeSweep(t)
 		})
 	}
 }
